@@ -286,7 +286,7 @@ func argMentions(c *Ctx, key string, fn [3]string, callee string, idx int, syms 
 			continue
 		}
 		var arg ast.Expr = s.call.Args[idx]
-		m := f.Mentions(arg, s.blk)
+		m := deepMentions(c.P, f, arg, s.blk, 2)
 		var missing []string
 		for _, sy := range syms {
 			if !m[sy] {
@@ -299,4 +299,36 @@ func argMentions(c *Ctx, key string, fn [3]string, callee string, idx int, syms 
 			c.OK(key, c.P.Pos(s.call.Pos()), fmt.Sprintf("%s: argument %d of %s derives from %s", FuncKey(fd.Obj), idx, callee, strings.Join(syms, ", ")))
 		}
 	}
+}
+
+// deepMentions: Mentions of e plus, for every module function mentioned (a value computed by a helper), the symbols
+// mentioned by the results that helper returns - so "derived from X" survives the extraction of the computation.
+func deepMentions(p *Program, f *FuncCFG, e ast.Node, blk *cfg.Block, depth int) map[string]bool {
+	out := f.Mentions(e, blk)
+	if depth <= 0 {
+		return out
+	}
+	for s := range out {
+		if !strings.Contains(s, "(") && !strings.Contains(s, ".") {
+			continue
+		}
+		fd := p.funcBySym(s)
+		if fd == nil || fd.Decl.Body == nil {
+			continue
+		}
+		hf := p.NewFuncCFG(fd)
+		if hf == nil {
+			continue
+		}
+		for _, r := range hf.Returns() {
+			for _, res := range r.node.(*ast.ReturnStmt).Results {
+				for k := range deepMentions(p, hf, res, r.blk, depth-1) {
+					if !strings.HasPrefix(k, "param") && !strings.HasPrefix(k, "local") && k != "recv" {
+						out[k] = true
+					}
+				}
+			}
+		}
+	}
+	return out
 }
